@@ -1337,3 +1337,53 @@ pub fn probe_churn_scenario(opts: ExecOpts) -> BoxedStrategy<Scenario> {
         })
         .boxed()
 }
+
+
+// ---- handles dropped by unwinding ------------------------------------------------------------
+
+/// (mask of explicit drops, mask of programs whose final drops) that happen during the unwinding
+/// of a panic; mostly none
+pub fn unwinding_masks() -> BoxedStrategy<(u16, u16)> {
+    prop_oneof![
+        6 => Just((0u16, 0u16)),
+        1 => (any::<u16>(), Just(0u16)),
+        1 => (Just(0u16), any::<u16>()),
+        1 => (any::<u16>(), any::<u16>()),
+    ]
+    .boxed()
+}
+
+/// Turns the j-th explicit handle drop of the scenario (in program order, nested bodies included)
+/// into a drop by unwinding when bit (j mod 16) of `drops` is set, and lets the programs selected
+/// by `ends` die (drop what they still own by unwinding).  A dropped handle behaves the same
+/// whichever way it is dropped, so this changes nothing in what the oracles expect.
+pub fn apply_unwinding(mut sc: Scenario, drops: u16, ends: u16) -> Scenario {
+    fn walk(ops: &mut Vec<Op>, j: &mut u32, mask: u16) {
+        for o in ops.iter_mut() {
+            match o {
+                Op::DropRx { rx } => {
+                    if (mask >> (*j % 16)) & 1 == 1 {
+                        *o = Op::DropRxUnw { rx: *rx };
+                    }
+                    *j += 1;
+                }
+                Op::DropTx { tx } => {
+                    if (mask >> (*j % 16)) & 1 == 1 {
+                        *o = Op::DropTxUnw { tx: *tx };
+                    }
+                    *j += 1;
+                }
+                Op::Repeat { body, .. } => walk(body, j, mask),
+                _ => {}
+            }
+        }
+    }
+    if drops != 0 {
+        let mut j = 0u32;
+        for p in sc.progs.iter_mut() {
+            walk(&mut p.ops, &mut j, drops);
+        }
+    }
+    sc.opts.unwind_end = ends;
+    sc
+}
